@@ -162,23 +162,7 @@ def run_case(sname, delay, bad_idx, pos, filler):
             exp = denote(src)
             if got != exp:
                 msgs.append("step %d executed allocation %r, the action due (%r) denotes %r" % (k, got, src, exp))
-            # positions reached: w x NLV_pre = q x mult x exec side (C03's formula), whole lots truncated
-            hq = env.broker.holdings_quantity
-            for c in (A, B):
-                w = exp.get(c.symbol, 0.0)
-                q = hq.get(c, 0.0)
-                bid, ask = books[c.symbol]
-                if measure == "weight" and not fractional:
-                    px = ask if w > 0 else bid
-                    if q != int(q) or abs(q - w * nlv_pre / px) >= 1.0 + 1e-9:
-                        msgs.append("step %d: whole-lot position %r in %s, weight %r x NLV %r / price %r = %r lots" % (k, q, c.symbol, w, nlv_pre, px, w * nlv_pre / px))
-                elif measure == "weight":
-                    px = ask if w > 0 else bid
-                    if not close(q * px, w * nlv_pre, 1e-9):
-                        msgs.append("step %d: position %r in %s x price %r != weight %r x NLV %r" % (k, q, c.symbol, px, w, nlv_pre))
-                else:
-                    if q != int(w):
-                        msgs.append("step %d: whole-lot target %r in %s gave position %r" % (k, w, c.symbol, q))
+            # (whether the broker then REACHES the allocation is C03's subject, not checked here)
         else:
             if got and not all(v == 0 for v in got.values()):
                 exp0 = denote(0) if sname.startswith("disc") else {}
